@@ -109,7 +109,7 @@ def build_world():
 
 
 def apply(w, op, ctx, hist):
-    from deep.api.tracepoint.tracepoint_config import MetricDefinition
+    from deep.api.tracepoint.tracepoint_config import MetricDefinition, LabelExpression
     from deepproto.proto.tracepoint.v1.tracepoint_pb2 import TracePointConfig as PB
     from deep.grpc import convert_response
     if op[0] == 'reg':
@@ -119,11 +119,17 @@ def apply(w, op, ctx, hist):
         line = {'L1': L1, 'L2': L2, 'M': 0}[loc]
         if loc == 'M':
             args['method_name'] = 'M'
-        metrics = [MetricDefinition('m%d' % n, 'counter')] if kind == 'metric' else []
+        labels = [LabelExpression('kind', static='k%d' % n)]
+        metrics = [MetricDefinition('m%d' % n, 'counter', labels)] if kind == 'metric' else []
         watches = ["'p%d'" % n]
         h = w.deep.register_tracepoint('c13prog.py', line, args, watches, metrics)
         # what was registered is what was given at that moment: the caller goes on using its lists and dict
         watches.append("'later-%d'" % n)
+        if metrics:
+            # ... and the objects in them: the label list is used for the next definition, the definition is edited
+            labels.append(LabelExpression('later', static='x'))
+            metrics[0].name = 'renamed%d' % n
+            metrics[0].expression = '1/0'
         metrics.append(MetricDefinition('later%d' % n, 'counter'))
         args['fire_count'] = '0'
         w.handles.append(h)
@@ -168,7 +174,7 @@ def observe(w):
     fw = Forwarder({path}, w.deep.trigger_handler, probe, after)
     run = fw.call(ns['M'])
     snaps = [(marks[i], tuple(s.tracepoint.watches), dict(s.tracepoint.args)) for i, s in enumerate(push.pushed)]
-    mets = sorted(e[3] for e in w.journal.events if e[0] == 'metric')
+    mets = sorted((e[3], tuple(sorted(e[4].items()))) for e in w.journal.events if e[0] == 'metric')
     return snaps, mets, run
 
 
@@ -181,7 +187,7 @@ def expected(w):
         exp.append(('L2', ("'svc'",)))
     elif w.svc == 'TL1':
         exp.append(('L1', ("'svc'",)))
-    mets = sorted(m['metric'] for m in w.model if m['alive'] and m['metric'])
+    mets = sorted((m['metric'], (('kind', 'k' + m['metric'][1:]),)) for m in w.model if m['alive'] and m['metric'])
     return sorted(exp), mets
 
 
